@@ -5,7 +5,7 @@ CONSTANTS
   Sizes <- SzExport
   Guarded = FALSE
   JSizes <- JSAll
-  JFlags <- JFAll
+  JFlags <- JFQuick
   MaxStr = 6
 ACTION_CONSTRAINT Export
 VIEW ExportView
